@@ -26,5 +26,32 @@ def run(run_, tier):
     it16 = c16.make_interp(run_)
     c16.check_warmup_stager(run_, it16)
     c16.check_windowed_stager(run_, it16)
+    rows_against_states(run_)
+    # collation of parallel outputs in chain order for every worker pickup / completion order (A14 model)
+    from . import c14
+    c14.parallel(run_, it, prop="C13")
     run_.extraction_drops.extend(sorted(it.dropped))
     run_.notes.append(f"paths explored: {it.paths}")
+
+
+def rows_against_states(run_):
+    """BOUNDED native complement of the generic-iteration contract: the contract's transition stub returns a fresh state object per call, whereas real
+    transitions may return their argument updated in place; 2 seeds x 2 step sizes x 25 iterations of the real sampler, every row compared with an
+    independent log of the post-iteration states."""
+    import os
+    import subprocess
+    from .. import core
+    script = os.path.join(core.VERIF, "replays", "c13_records.py")
+    try:
+        p = subprocess.run([core.NATIVE_PY, script, "rows"], capture_output=True, text=True, timeout=600, env=dict(os.environ, PYTHONPATH=core.SRC))
+        out = p.stdout.strip()
+        ok = p.returncode == 0 and "not reproduced" in out
+        st = core.DISCHARGED if ok else (core.FAILED if "REPRODUCED" in out else core.ERROR)
+        detail = "" if ok else (out or p.stderr)[-600:]
+    except Exception as e:  # noqa: BLE001
+        st, detail = core.ERROR, f"{type(e).__name__}: {e}"
+    run_.ob("samplers.sample_chains/rows-equal-post-iteration-states-with-in-place-transitions", st, "native-exec", klass="bounded", detail=detail,
+            witness=None if st == core.DISCHARGED else {"mode": "rows"},
+            replay=(lambda w: {"script": "c13_records.py", "args": ["rows"], "timeout": 600}) if st == core.FAILED else None,
+            text="bounded: 100 iterations of the real sampler (in-place momentum refresh, rejections returning the same object): every pos / mom / hamiltonian row == logged state")
+    run_.bounded.append({"id": "C13/samplers.sample_chains/rows-equal-post-iteration-states-with-in-place-transitions", "detail": "2 seeds x 2 step sizes x 25 iterations"})
